@@ -61,6 +61,11 @@ pub enum TOp {
         #[serde(default)]
         shape: u8,
     },
+    /// `times` attempts in a row to unwrap a password-wrapped key whose header states cost parameters no
+    /// KDF accepts (zero passes / iterations, zero lanes, less memory than the minimum) next to a memory
+    /// size that is small, large or beyond anything addressable: every attempt fails at once; whatever
+    /// the library does per attempt (counters, budgets, pools, caches) it does `times` times
+    UnwrapPwCrafted { variant: u8, times: u32 },
 }
 
 impl TOp {
@@ -79,6 +84,7 @@ impl TOp {
                 | TOp::VerifyWrongKey
                 | TOp::EncryptRngFail
                 | TOp::ParseGarbageKey { .. }
+                | TOp::UnwrapPwCrafted { .. }
         )
     }
 }
@@ -366,6 +372,45 @@ fn run_op(bk: Bk, keys: &mut Keys, shared: &Shared, st: &mut ThreadState, mail: 
             } else {
                 "skip".into()
             }
+        }
+        TOp::UnwrapPwCrafted { variant, times } => {
+            // the stated memory size walks down a staircase from 4 GiB to the minimum, a few attempts per
+            // step (whatever accumulates per attempt reaches any threshold to within one minimum-sized request)
+            const STAIRS: [u64; 12] = [4 << 30, 1 << 30, 256 << 20, 64 << 20, 16 << 20, 4 << 20, 1 << 20, 256 << 10, 64 << 10, 16 << 10, 8 << 10, 8 << 10];
+            let mut g = Rng::new(s);
+            let fill = g.bytes(16 + 24 + 32 + 32 + 48);
+            let n = (*times).clamp(1, 400);
+            let per = (n as usize / STAIRS.len()).max(1);
+            let mut last = String::from("skip");
+            for j in 0..n as usize {
+                let data: Vec<u8> = if f == 1 || f == 3 {
+                    // salt(32) || iterations(4) || nonce(16) || edk(32) || tag(48)
+                    let mut d = fill[..32].to_vec();
+                    d.extend_from_slice(&0u32.to_be_bytes());
+                    d.extend_from_slice(&fill[32..32 + 16 + 32 + 48]);
+                    d
+                } else {
+                    // salt(16) || mem(8) || time(4) || lanes(4) || nonce(24) || edk(32) || tag(32)
+                    let stair = STAIRS[(j / per).min(STAIRS.len() - 1)];
+                    let (mem, time, para): (u64, u32, u32) = match variant % 8 {
+                        0 | 1 | 2 => (stair, 0, 1),
+                        3 => ((8u64 << 30) - 1024, 0, 1),
+                        4 => (stair, 1, 0),
+                        5 => (1024, 1, 1),
+                        6 => (stair, 0, 0),
+                        _ => (stair + 1024, 0, 1),
+                    };
+                    let mut d = fill[..16].to_vec();
+                    d.extend_from_slice(&mem.to_be_bytes());
+                    d.extend_from_slice(&time.to_be_bytes());
+                    d.extend_from_slice(&para.to_be_bytes());
+                    d.extend_from_slice(&fill[16..16 + 24 + 32 + 32]);
+                    d
+                };
+                let text = format!("k{f}.local-pw.{}", faults::b64(&data));
+                last = res(&be.unwrap_pw(Kind::Local, &text, b"c17 password"), |_| "accepted".into());
+            }
+            last
         }
         TOp::ParseGarbageKey { kind, shape } => {
             let right = match (f, kind) {
